@@ -129,9 +129,18 @@ def signatures(max_params):
     ]
 
 
-def make_params(kinds, leaf):
+#: how the constructor of a non-leaf class receives its target: a first parameter called
+#: target, a first parameter of another name, or through its *args
+TARGET_STYLES = ("named", "renamed", "varargs")
+
+
+def make_params(kinds, leaf, style="named"):
     """[(name, kind)] of a constructor with the extra parameters ``kinds``"""
-    params = [] if leaf else [("target", P)]
+    if leaf or style == "varargs":
+        assert leaf or (kinds and kinds[0] == VA)
+        params = []
+    else:
+        params = [("target" if style == "named" else "pool", P)]
     names = iter("abc")
     for kind in kinds:
         if kind == VA:
@@ -143,7 +152,7 @@ def make_params(kinds, leaf):
     return params
 
 
-def init_source(params):
+def init_source(params, target_in_args=False):
     parts, star = ["self"], False
     for name, kind in params:
         if kind in (K, KD) and not star:
@@ -160,8 +169,10 @@ def init_source(params):
             parts.append(name)
     body = ", ".join("%r: %s" % (name, name) for name, _ in params)
     lines = ["def __init__(%s):" % ", ".join(parts)]
-    if params and params[0][0] == "target":
-        lines.append("    _BASE.__init__(self, target)")
+    if params and params[0][0] in ("target", "pool"):
+        lines.append("    _BASE.__init__(self, %s)" % params[0][0])
+    elif target_in_args:
+        lines.append("    _BASE.__init__(self, args[0])")
     lines.append("    self.bound = {%s}" % body)
     lines.append("    LOG.append(self)")
     return "\n".join(lines) + "\n"
@@ -179,14 +190,14 @@ def flavour_of(kind):
             "service:threading": threading}[kind]
 
 
-def make_class(name, role, kind, params):
+def make_class(name, role, kind, params, target_in_args=False):
     """A recording class: ``role`` controller / decorator / pool, ``kind`` plain or
     service:<flavour>; its constructor stores what it received and logs itself"""
     from cobald.interfaces import Controller, Pool, PoolDecorator
 
     base = {"controller": Controller, "decorator": PoolDecorator, "pool": Pool}[role]
     namespace = {"_BASE": base, "LOG": LOG}
-    exec(init_source(params), namespace)  # noqa: S102 - source generated above
+    exec(init_source(params, target_in_args), namespace)  # noqa: S102 - generated above
     body = {"__init__": namespace["__init__"], "__qualname__": name}
     if role == "pool":
         body.update(supply=0.0, demand=0.0, utilisation=1.0, allocation=1.0)
@@ -218,6 +229,7 @@ class Subject:
 
     pre_args = ()
     allow_pool = True
+    style = "named"
 
     def __init__(self, label, owner, params, leaf, service):
         self.label = label      # JSON-able description, enough to rebuild the subject
@@ -278,12 +290,17 @@ def _head_class():
     return _HEAD[0]
 
 
-def generated_subject(role, kind, kinds):
+def generated_subject(role, kind, kinds, style="named"):
     leaf = role == "pool"
-    params = make_params(kinds, leaf)
-    cls = make_class("Gen_" + "_".join(kinds) if kinds else "Gen", role, kind, params)
+    params = make_params(kinds, leaf, style)
+    cls = make_class("Gen_" + "_".join(kinds) if kinds else "Gen", role, kind, params,
+                     target_in_args=style == "varargs")
     label = {"subject": "generated", "role": role, "kind": kind, "signature": list(kinds)}
-    return Subject(label, cls, params, leaf, kind != "plain")
+    if style != "named":
+        label["style"] = style
+    subject = Subject(label, cls, params, leaf, kind != "plain")
+    subject.style = style
+    return subject
 
 
 def params_of(cls):
@@ -407,7 +424,8 @@ class ShippedSubject(Subject):
 
 def make_subject(label):
     if label["subject"] == "generated":
-        return generated_subject(label["role"], label["kind"], tuple(label["signature"]))
+        return generated_subject(label["role"], label["kind"], tuple(label["signature"]),
+                                 label.get("style", "named"))
     return ShippedSubject(label["name"])
 
 
@@ -431,8 +449,9 @@ def expectation(subject, tokens, names, used, new_names):
         args = ("<target>",) + args     # the target arrives later, first positional
     _, errors, _ = bind_call(subject.params, args, dict.fromkeys(names))
     for reason, name in errors:
-        if reason == DUP_POS_KW and name == "target" and not subject.leaf:
-            reason = TARGET_KW
+        if reason == DUP_POS_KW and not subject.leaf and subject.style != "varargs" \
+                and name == subject.params[0][0]:
+            reason = TARGET_KW      # the parameter that takes the target, whatever its name
         reasons.add(reason)
     if not subject.leaf and subject.allow_pool and tokens and tokens[0] == POOL:
         reasons.add(POOL_FIRST)
@@ -448,7 +467,8 @@ def supply(subject, template, call_index, tokens_before, used_before, tokens, na
     all_tokens = tuple(tokens_before) + tuple(tokens)
     all_names = tuple(used_before) + tuple(n for n in names if n not in used_before)
     step.tokens, step.names = all_tokens, all_names
-    if subject.leaf and "target" in all_names and subject.has_var_kwargs:
+    if (subject.leaf or subject.style != "named") and "target" in all_names \
+            and subject.has_var_kwargs:
         step.skipped = True     # domain restriction, see assumptions
         step.expected, step.raised = [], False
         return step
@@ -723,10 +743,12 @@ GENERATED_NAMES = ("a", "b", "c", "zz", "target")
 
 
 def shard_generated(args):
-    _, role, kind, kinds, max_pos, max_names = args
+    _, role, kind, kinds, max_pos, max_names = args[:6]
+    style = args[6] if len(args) > 6 else "named"
     acc = Acc()
-    subject = generated_subject(role, kind, kinds)
-    tree = call_tree(max_pos, GENERATED_NAMES, max_names, True)
+    subject = generated_subject(role, kind, kinds, style)
+    names = GENERATED_NAMES + (("pool",) if style == "renamed" else ())
+    tree = call_tree(max_pos, names, max_names, True)
     SubjectRun(acc, subject).explore(tree)
     return acc
 
@@ -1228,6 +1250,13 @@ def run(ctx):
         for role in ("controller", "decorator", "pool"):
             for kind in kinds_of_class:
                 shards.append(("generated", role, kind, kinds, max_pos, max_names))
+        # the target taken by a parameter of another name, or through *args
+        for style in TARGET_STYLES[1:]:
+            if style == "varargs" and kinds[:1] != (VA,):
+                continue
+            for kind in kinds_of_class:
+                shards.append(("generated", "controller", kind, kinds, max_pos, max_names,
+                               style))
         if not quick:
             for kind in ("service:asyncio", "service:threading"):
                 shards.append(("generated", "controller", kind, kinds, 3, 2))
@@ -1260,8 +1289,9 @@ def run(ctx):
              "one focus position (including the tail: instance / Pool.s(..) / curried) x 4 "
              "representative variants at every other position; one evaluation per "
              "(elements, tail, grouping), non-trivial when it has arguments or n > 2.  "
-             "signature part: every legal signature (target + <= %d parameters of 6 kinds) "
-             "x role x plain/@service x every argument list (<= %d positionals, optionally "
+             "signature part: every legal signature (target + <= %d parameters of 6 kinds; "
+             "for controllers also with the target parameter called pool and with the "
+             "target taken through *args) x role x plain/@service x every argument list (<= %d positionals, optionally "
              "one or all Pool instances; keywords from {a,b,c,zz,target}, <= %d distinct) x "
              "every split over <= 2 calls (a keyword may be repeated); one evaluation per "
              "path of calls, non-trivial when an argument is supplied.  shipped part: the "
@@ -1284,7 +1314,9 @@ def run(ctx):
         "signature; Pool instances at other positions are ordinary values",
         "pool (leaf) templates: 'target=...' that would land in **kwargs of the pool's "
         "constructor is skipped (the statement does not say whether that is 'passing the "
-        "target'); generated pool classes have no parameter called target",
+        "target'); generated pool classes have no parameter called target; the same for "
+        "controller classes whose target parameter has another name or that take the target "
+        "through *args (styles %r of the generated classes)" % (TARGET_STYLES[1:],),
         "UnboundStepwise.s: Pool-valued arguments are not supplied (positionals are "
         "rules); the base rule and registered rules count as already supplied positionals",
         "parameter lists of shipped classes are read from their real __init__ by "
